@@ -164,6 +164,33 @@ def valid(e, extra=()):
     return res
 
 
+import contextlib
+
+
+@contextlib.contextmanager
+def scope(hyps=()):
+    """temporarily extend the index hypotheses; everything added inside (incl. hints) is dropped on exit"""
+    n0 = len(CTX.hyps)
+    CTX.hyps.extend(hyps)
+    try:
+        yield
+    finally:
+        del CTX.hyps[n0:]
+
+
+def add_hint(f):
+    """add a fact to the path condition after proving it from the current context (sound by construction);
+    used for small non-linear consequences that help the later, larger queries"""
+    f = z3.simplify(f)
+    if z3.is_true(f) or any(f.eq(p) for p in CTX.hyps):
+        return True
+    if valid(f):
+        CTX.hyps.append(f)
+        CTX.hint_count = getattr(CTX, "hint_count", 0) + 1
+        return True
+    return False
+
+
 def refute_or_prove(e, extra=()):
     """('proved',None) | ('refuted',model) | ('unknown',None) for validity of e under the context"""
     if isinstance(e, bool):
@@ -295,16 +322,10 @@ def int_floordiv(a, b):
     ebs = z3.simplify(eb)
     if z3.is_app(ebs) and ebs.decl().kind() == z3.Z3_OP_ITE:
         c, x, y = ebs.children()
-        CTX.hyps.append(c)
-        try:
+        with scope([c]):
             qx = zi(int_floordiv(mk(ea), mk(x)))
-        finally:
-            CTX.hyps.pop()
-        CTX.hyps.append(z3.Not(c))
-        try:
+        with scope([z3.Not(c)]):
             qy = zi(int_floordiv(mk(ea), mk(y)))
-        finally:
-            CTX.hyps.pop()
         return mk(z3.If(c, qx, qy))
     if cb is not None and cb > 0:
         return mk(ea / eb)            # z3 int division == floor division for positive divisor
